@@ -5,11 +5,18 @@ C10 — property theorems: exact arithmetic is exact and the numeric tower is co
 `Canonical` is the canonical form the property demands; `Exact r q` says: the operation returned
 normally, its value denotes exactly `q`, and it is canonical.  Every theorem quantifies over ALL
 canonical operands — there is no bound on magnitudes.
+
+Where the code at the pinned commit is defective the family has three members:
+  `<op>_exact`            the full statement, for the repaired code (`cfg.<flag> = true`);
+  `<op>_exact_partial`    the code as it is, under a decidable guard on the operands;
+  `<op>_pinned_counterexample`  a `decide`d witness outside the guard (replayed on the real engine).
+`Gen.cfg` (regenerated from the Rust source) says which of the two the current tree is.
 -/
-import SteelVerif.C10.LemmasOps
+import SteelVerif.C10.LemmasExpt
+import SteelVerif.C10.Arms
 namespace SteelVerif.C10
 
-/-! ## canonicalisation -/
+/-! ## canonicalisation (`IntoSteelVal`) -/
 
 /-- `BigInt::into_steelval` is exact and canonical for every integer. -/
 theorem normalize_int_exact (n : Int) : Exact (.ok (normInt n)) (n : Rat) := normInt_exact n
@@ -26,7 +33,8 @@ example : fromQ 4294967296 6 = .ok (.bigrat 2147483648 3) := by decide
 theorem canonical_representation_unique {a b : Num} (ha : Canonical a) (hb : Canonical b)
     (h : denote a = denote b) : a = b := canonical_unique ha hb h
 
-example : Canonical (.rat32 (-7) 3) ∧ ¬ Canonical (.rat32 (-14) 6) ∧ ¬ Canonical (.rat32 1 (-27)) := by decide
+example : Canonical (.rat32 (-7) 3) ∧ ¬ Canonical (.rat32 (-14) 6) ∧ ¬ Canonical (.rat32 1 (-27))
+    ∧ ¬ Canonical (.big 5) ∧ ¬ Canonical (.bigrat 1 2) := by decide
 
 /-! ## + - * -/
 
@@ -46,9 +54,274 @@ example : addTwo (.fix 9223372036854775807) (.fix 1) = .ok (.big 922337203685477
 example : addTwo (.big 9223372036854775808) (.fix (-1)) = .ok (.fix 9223372036854775807) := by decide
 example : addTwo (.rat32 2147483647 2) (.rat32 2147483647 3) = .ok (.bigrat 10737418235 6) := by decide
 example : addTwo (.fix 12) (.rat32 (-7) 3) = .ok (.rat32 29 3) := by decide
+example : negate (.fix (-9223372036854775808)) = .ok (.big 9223372036854775808) := by decide
+example : negate (.rat32 (-2147483648) 3) = .ok (.bigrat 2147483648 3) := by decide
 example : subTwo (.rat32 1 2) (.rat32 1 2) = .ok (.fix 0) := by decide
 example : mulTwo (.rat32 1 2) (.bigrat 1000000000000000000000000000000 3)
     = .ok (.bigrat 500000000000000000000000000000 3) := by decide
 example : mulTwo (.fix 4294967296) (.fix 4294967296) = .ok (.big 18446744073709551616) := by decide
+
+/-! ## `/` -/
+
+/-- division by a non-zero number is exact (repaired reciprocal). -/
+theorem div_exact (cfg : Cfg) (hc : cfg.recipChecked = true) {a b : Num} (ha : Canonical a)
+    (hb : Canonical b) (hne : denote b ≠ 0) : Exact (divTwo cfg a b) (denote a / denote b) :=
+  divTwo_exact cfg ha hb (fun h => hne (by rw [h]; rfl)) (Or.inl hc)
+
+/-- the code as it is: exact unless the divisor is `i32::MIN` or a 32-bit ratio with that numerator. -/
+theorem div_exact_partial (cfg : Cfg) {a b : Num} (ha : Canonical a) (hb : Canonical b)
+    (hne : denote b ≠ 0) (hg : RecipGuard b = true) : Exact (divTwo cfg a b) (denote a / denote b) :=
+  divTwo_exact cfg ha hb (fun h => hne (by rw [h]; rfl)) (Or.inr hg)
+
+theorem div_pinned_counterexample :
+    divTwo Cfg.pinned (.fix 1) (.fix (-2147483648)) = .panic ∧
+    divTwo Cfg.pinned (.fix 5) (.rat32 (-2147483648) 3) = .panic ∧
+    RecipGuard (.fix (-2147483648)) = false ∧ RecipGuard (.rat32 (-2147483648) 3) = false := by decide
+
+/-- division by zero is an error, and the only canonical zero is `0`. -/
+theorem div_by_zero (cfg : Cfg) (a : Num) {b : Num} (hb : Canonical b) (h0 : denote b = 0) :
+    divTwo cfg a b = .err .div0 := by
+  rw [canonical_zero hb h0]; exact divTwo_zero cfg a
+
+example : divTwo Cfg.pinned (.fix 7) (.fix (-14)) = .ok (.rat32 (-1) 2) := by decide
+example : divTwo Cfg.repaired (.fix 1) (.fix (-2147483648)) = .ok (.bigrat (-1) 2147483648) := by decide
+example : divTwo Cfg.pinned (.big 18446744073709551616) (.fix 2) = .ok (.big 9223372036854775808) := by decide
+example : divTwo Cfg.pinned (.rat32 1 2) (.fix 0) = .err .div0 := by decide
+
+/-! ## quotient, remainder, modulo (integer operands) -/
+
+theorem quotient_exact {a b : Num} (ha : Canonical a) (hb : Canonical b) (hai : a.isInt = true)
+    (hbi : b.isInt = true) (hne : b ≠ .fix 0) :
+    Exact (quotient a b) ((Int.tdiv a.toInt b.toInt : Int) : Rat) := by
+  rw [(quotient_spec ha hb hai hbi).2 hne]; exact normInt_exact _
+
+theorem remainder_exact {a b : Num} (ha : Canonical a) (hb : Canonical b) (hai : a.isInt = true)
+    (hbi : b.isInt = true) (hne : b ≠ .fix 0) :
+    Exact (remainder a b) ((Int.tmod a.toInt b.toInt : Int) : Rat) := by
+  rw [(remainder_spec ha hb hai hbi).2 hne]; exact normInt_exact _
+
+theorem modulo_exact {a b : Num} (ha : Canonical a) (hb : Canonical b) (hai : a.isInt = true)
+    (hbi : b.isInt = true) (hne : b ≠ .fix 0) :
+    Exact (modulo a b) ((Int.fmod a.toInt b.toInt : Int) : Rat) := by
+  rw [(modulo_spec ha hb hai hbi).2 hne]; exact normInt_exact _
+
+theorem integer_division_by_zero {a : Num} (ha : Canonical a) (hai : a.isInt = true) :
+    quotient a (.fix 0) = .err .div0 ∧ remainder a (.fix 0) = .err .div0 ∧
+      modulo a (.fix 0) = .err .div0 :=
+  ⟨(quotient_spec ha (by decide) hai rfl).1 rfl, (remainder_spec ha (by decide) hai rfl).1 rfl,
+   (modulo_spec ha (by decide) hai rfl).1 rfl⟩
+
+example : quotient (.fix (-9223372036854775808)) (.fix (-1)) = .ok (.big 9223372036854775808) := by decide
+example : modulo (.fix (-7)) (.fix 2) = .ok (.fix 1) := by decide
+example : remainder (.big (-100000000000000000000)) (.fix 7) = .ok (.fix (-2)) := by decide
+example : modulo (.big 100000000000000000000) (.fix (-7)) = .ok (.fix (-5)) := by decide
+
+/-! ## abs -/
+
+theorem abs_exact (cfg : Cfg) (hc : cfg.absChecked = true) {a : Num} (ha : Canonical a) :
+    Exact (absNum cfg a) (ratAbs (denote a)) := absNum_exact cfg ha (Or.inl hc)
+
+theorem abs_exact_partial (cfg : Cfg) {a : Num} (ha : Canonical a) (hg : AbsGuard a = true) :
+    Exact (absNum cfg a) (ratAbs (denote a)) := absNum_exact cfg ha (Or.inr hg)
+
+theorem abs_pinned_counterexample :
+    absNum Cfg.pinned (.fix (-9223372036854775808)) = .panic ∧
+    absNum Cfg.pinned (.rat32 (-2147483648) 3) = .panic ∧
+    AbsGuard (.fix (-9223372036854775808)) = false ∧ AbsGuard (.rat32 (-2147483648) 3) = false := by
+  decide
+
+example : absNum Cfg.repaired (.fix (-9223372036854775808)) = .ok (.big 9223372036854775808) := by decide
+example : absNum Cfg.repaired (.rat32 (-2147483648) 3) = .ok (.bigrat 2147483648 3) := by decide
+example : absNum Cfg.pinned (.rat32 (-7) 3) = .ok (.rat32 7 3) := by decide
+
+/-! ## numerator, denominator -/
+
+theorem numerator_is_exact {a : Num} (ha : Canonical a) :
+    Exact (numerator a) (((denote a).num : Int) : Rat) := numerator_exact ha
+
+theorem denominator_is_exact {a : Num} (ha : Canonical a) :
+    Exact (denominator a) ((((denote a).den : Nat) : Int) : Rat) := denominator_exact ha
+
+example : numerator (.rat32 (-3) 2) = .ok (.fix (-3)) ∧ denominator (.rat32 (-3) 2) = .ok (.fix 2) := by
+  decide
+
+/-! ## gcd, lcm (integer operands) -/
+
+theorem gcd_exact (cfg : Cfg) (hc : cfg.absChecked = true) (a b : Int) :
+    Exact (gcdNum cfg (normInt a) (normInt b)) ((Int.gcd a b : Int) : Rat) := by
+  rw [gcdNum_spec cfg a b (Or.inl hc)]; exact normInt_exact _
+
+theorem gcd_exact_partial (cfg : Cfg) (a b : Int) (hg : (Int.gcd a b : Int) ≠ 9223372036854775808) :
+    Exact (gcdNum cfg (normInt a) (normInt b)) ((Int.gcd a b : Int) : Rat) := by
+  rw [gcdNum_spec cfg a b (Or.inr hg)]; exact normInt_exact _
+
+theorem lcm_exact (cfg : Cfg) (hc : cfg.absChecked = true) (a b : Int) :
+    Exact (lcmNum cfg (normInt a) (normInt b)) ((Int.lcm a b : Int) : Rat) := by
+  rw [lcmNum_spec cfg a b (Or.inl hc)]; exact normInt_exact _
+
+theorem lcm_exact_partial (cfg : Cfg) (a b : Int)
+    (hg : (Int.gcd a b : Int) ≠ 9223372036854775808 ∧ (Int.lcm a b : Int) ≠ 9223372036854775808) :
+    Exact (lcmNum cfg (normInt a) (normInt b)) ((Int.lcm a b : Int) : Rat) := by
+  rw [lcmNum_spec cfg a b (Or.inr hg)]; exact normInt_exact _
+
+/-- every canonical integer operand is `normInt` of its value, so the statements above cover all. -/
+theorem integer_operand_is_normInt {x : Num} (hc : Canonical x) (h : x.isInt = true) :
+    x = normInt x.toInt := canonical_int_eq_normInt hc h
+
+theorem gcd_pinned_counterexample :
+    gcdNum Cfg.pinned (.fix (-9223372036854775808)) (.fix 0) = .panic ∧
+    lcmNum Cfg.pinned (.fix (-9223372036854775808)) (.fix 1) = .panic := by decide
+
+example : gcdNum Cfg.pinned (.fix 12) (.fix 18) = .ok (.fix 6) := by decide
+example : gcdNum Cfg.pinned (.big 100000000000000000000) (.fix 30) = .ok (.fix 10) := by decide
+example : lcmNum Cfg.pinned (.fix 4) (.fix (-6)) = .ok (.fix 12) := by decide
+example : gcdNum Cfg.repaired (.fix 0) (.fix (-9223372036854775808)) = .ok (.big 9223372036854775808) := by
+  decide
+
+/-! ## expt with an exact exponent -/
+
+/-- integer base, non-negative exponent (every configuration): the exact power. -/
+theorem expt_int_exact (cfg : Cfg) (l : Int) {r : Int} (hr : 0 ≤ r) :
+    Exact (expt cfg (normInt l) (.fix r)) (((l : Rat)) ^ r.toNat) := by
+  rw [expt_int_nonneg cfg l hr, ← Rat.intCast_pow]; exact normInt_exact _
+
+/-- ratio base, non-negative exponent, repaired code. -/
+theorem expt_ratio_exact (cfg : Cfg) (hc : cfg.exptChecked = true) {a : Num} (ha : Canonical a)
+    (hk : a.isInt = false) {r : Int} (hr : 0 ≤ r) (hr32 : fitsI32 r = true) :
+    Exact (expt cfg a (.fix r)) (denote a ^ r.toNat) := by
+  cases a with
+  | fix n => simp [Num.isInt] at hk
+  | big n => simp [Num.isInt] at hk
+  | rat32 n d => exact expt_rat32_nonneg_checked cfg hc ha hr hr32
+  | bigrat n d =>
+    by_cases h0 : r = 0
+    · subst h0
+      simp only [expt, ↓reduceIte, Int.toNat_zero, Rat.pow_zero]
+      exact Exact.mk rfl (by decide)
+    · exact expt_bigrat_pos cfg ha (by omega)
+
+/-- ratio base, the code as it is: exact while `Ratio<i32>::pow` stays inside `i32`; big ratios always. -/
+theorem expt_ratio_exact_partial (cfg : Cfg) {a : Num} (ha : Canonical a)
+    (hk : a.isInt = false) {r : Int} (hr : 0 ≤ r) (hr32 : fitsI32 r = true)
+    (hg : RatPowGuard a.toQ.1 a.toQ.2 r = true) :
+    Exact (expt cfg a (.fix r)) (denote a ^ r.toNat) := by
+  cases a with
+  | fix n => simp [Num.isInt] at hk
+  | big n => simp [Num.isInt] at hk
+  | rat32 n d => exact expt_rat32_nonneg_partial cfg ha hr hr32 hg
+  | bigrat n d =>
+    by_cases h0 : r = 0
+    · subst h0
+      simp only [expt, ↓reduceIte, Int.toNat_zero, Rat.pow_zero]
+      exact Exact.mk rfl (by decide)
+    · exact expt_bigrat_pos cfg ha (by omega)
+
+/-- negative exponent, repaired code: `a ^ (-k) = 1 / a ^ k`, canonical (positive denominator). -/
+theorem expt_negative_exact (cfg : Cfg) (hc : cfg.exptChecked = true) {l : Int} (hl : l ≠ 0)
+    {r : Int} (hr : r < 0) :
+    Exact (expt cfg (normInt l) (.fix r)) (((l : Rat) ^ r.natAbs)⁻¹) :=
+  expt_int_neg_checked cfg hc hl hr
+
+theorem expt_negative_exact_partial (cfg : Cfg) {l : Int} (hl : 0 < l) {r : Int} (hr : r < 0) :
+    Exact (expt cfg (normInt l) (.fix r)) (((l : Rat) ^ r.natAbs)⁻¹) :=
+  expt_int_neg_partial cfg hl hr
+
+theorem expt_ratio_negative_exact (cfg : Cfg) (hc : cfg.exptChecked = true) {a : Num}
+    (ha : Canonical a) (hk : a.isInt = false) {r : Int} (hr : r < 0) (hr32 : fitsI32 r = true) :
+    Exact (expt cfg a (.fix r)) ((denote a ^ r.natAbs)⁻¹) := by
+  cases a with
+  | fix n => simp [Num.isInt] at hk
+  | big n => simp [Num.isInt] at hk
+  | rat32 n d => exact expt_rat32_neg_checked cfg hc ha hr hr32
+  | bigrat n d => exact expt_bigrat_neg cfg ha hr
+
+theorem expt_zero_to_negative (cfg : Cfg) {r : Int} (hr : r < 0) :
+    expt cfg (.fix 0) (.fix r) = .err .expt0 := expt_zero_neg cfg hr
+
+theorem expt_pinned_counterexample :
+    expt Cfg.pinned (.rat32 1 2) (.fix 31) = .panic ∧
+    expt Cfg.pinned (.fix (-3)) (.fix (-3)) = .ok (.rat32 1 (-27)) ∧ ¬ Canonical (.rat32 1 (-27)) ∧
+    expt Cfg.pinned (.fix (-2)) (.fix (-41)) = .ok (.bigrat 1 (-2199023255552)) ∧
+    expt Cfg.pinned (.fix 0) (.big 100000000000000000000) = .err .expt0 ∧
+    RatPowGuard 1 2 31 = false := by decide
+
+example : expt Cfg.pinned (.fix 2) (.fix 64) = .ok (.big 18446744073709551616) := by decide
+example : expt Cfg.pinned (.fix 2) (.fix (-40)) = .ok (.bigrat 1 1099511627776) := by decide
+example : expt Cfg.repaired (.rat32 1 2) (.fix 31) = .ok (.bigrat 1 2147483648) := by decide
+example : expt Cfg.repaired (.fix (-3)) (.fix (-3)) = .ok (.rat32 (-1) 27) := by decide
+example : expt Cfg.pinned (.rat32 2 3) (.fix (-2)) = .ok (.rat32 9 4) := by decide
+example : expt Cfg.repaired (.fix 0) (.big 100000000000000000000) = .ok (.fix 0) := by decide
+
+/-! ## exact-integer-sqrt -/
+
+/-- for every non-negative integer `n`: the two results are `s` and `n − s²` with `s² ≤ n < (s+1)²`,
+both canonical. -/
+theorem exact_integer_sqrt_spec (n : Int) (hn : 0 ≤ n) :
+    ∃ s : Int, exactIntegerSqrt (normInt n) = .ok (normInt s, normInt (n - s * s)) ∧
+      0 ≤ s ∧ s * s ≤ n ∧ n < (s + 1) * (s + 1) := by
+  obtain ⟨h1, h2, h3⟩ := exactIntegerSqrt_spec n hn
+  exact ⟨_, h1, by omega, h2, h3⟩
+
+example : ∃ s : Int, exactIntegerSqrt (.fix 17) = .ok (normInt s, normInt (17 - s * s)) ∧
+    0 ≤ s ∧ s * s ≤ 17 ∧ 17 < (s + 1) * (s + 1) := exact_integer_sqrt_spec 17 (by decide)
+example : exactIntegerSqrt (.fix (-1)) = .err .type := by decide
+
+/-! ## comparison -/
+
+theorem eq_consistent {a b : Num} (ha : Canonical a) (hb : Canonical b) :
+    numEq a b = true ↔ denote a = denote b := numEq_correct ha hb
+
+theorem lt_consistent {a b : Num} (ha : Canonical a) (hb : Canonical b) :
+    numLt a b = true ↔ denote a < denote b := numLt_correct ha hb
+
+theorem gt_consistent {a b : Num} (ha : Canonical a) (hb : Canonical b) :
+    numGt a b = true ↔ denote b < denote a := numGt_correct ha hb
+
+theorem le_consistent {a b : Num} (ha : Canonical a) (hb : Canonical b) :
+    numLe a b = true ↔ denote a ≤ denote b := numLe_correct ha hb
+
+theorem ge_consistent {a b : Num} (ha : Canonical a) (hb : Canonical b) :
+    numGe a b = true ↔ denote b ≤ denote a := numGe_correct ha hb
+
+example : numLt (.rat32 1 3) (.rat32 1 2) = true ∧ numLe (.big 9223372036854775808) (.fix 5) = false
+    ∧ numEq (.fix 5) (.fix 5) = true ∧ numGe (.bigrat 100000000000000000000 3) (.fix 7) = true := by
+  decide
+
+/-! ## the shape of the call does not matter -/
+
+theorem sub_immediate_is_sub {l : Num} (hl : Canonical l) {r : Int} (hr : fitsIsize r = true) :
+    subImmediate l r = subTwo l (.fix r) := subImmediate_eq hl hr
+
+theorem add_immediate_is_add {l : Num} (hl : Canonical l) {r : Int} (hr : fitsIsize r = true) :
+    addImmediate l r = addTwo l (.fix r) := addImmediate_eq hl hr
+
+theorem lte_immediate_is_le (l : Num) (r : Int) : lteImmediate l r = numLe l (.fix r) := rfl
+
+example : subImmediate (.fix (-9223372036854775808)) 1 = .ok (.big (-9223372036854775809)) := by decide
+
+/-! ## every pair of exact kinds has a computing match arm in the Rust source (regenerated tables) -/
+
+open Gen in
+theorem rust_arms_complete :
+    computes2 arms_add_two allKinds allKinds = true ∧
+    computes2 arms_add_two_fallible allKinds allKinds = true ∧
+    computes2 arms_multiply_two allKinds allKinds = true ∧
+    computes2 arms_partial_cmp allKinds allKinds = true ∧
+    equalityArms arms_number_equality = true ∧
+    computes2 arms_truncate_quotient intKinds intKinds = true ∧
+    computes2 arms_truncate_remainder intKinds intKinds = true ∧
+    computes2 arms_floor_remainder intKinds intKinds = true ∧
+    computes2 arms_expt allKinds [.fix] = true ∧
+    computes1 arms_negate allKinds = true ∧
+    computes1 arms_abs allKinds = true ∧
+    computes1 arms_numerator allKinds = true ∧
+    computes1 arms_denominator allKinds = true ∧
+    computes1 arms_recip allKinds = true := by decide
+
+-- non-vacuity: the check notices a deleted arm (this is the table of `multiply_two` before f0377ee5)
+example : Gen.computes2
+    [⟨.IntV, .IntV, false, .compute⟩, ⟨.Rational, .Rational, false, .compute⟩,
+     ⟨.BigRational, .Rational, false, .compute⟩, ⟨.Any, .Any, false, .error⟩]
+    [.rat32] [.bigrat] = false := by decide
 
 end SteelVerif.C10
